@@ -83,6 +83,13 @@ def c04_sweep(r, seed, tier, model_ok):
             for en in ["", "(ㅈㅈㅎㄱ)", "(ㄱㅈㅎㄱ)"]:
                 n = 2 + (1 if en else 0)
                 for a in names: items.append((f"codec[{sch},{w},{en}]({a})", f"{VALS[a]} ({sch} {w} {en} ㅂ ㅂ ㅂㅎㄷ ㅎ{E(n)}) ㅎㄴ"))
+    # built-in module paths: every literal path of length 1..4 over the names that occur in the module tree (and some that do not)
+    PW = ["ㅂ", "ㅅ", "ㅂㄷ", "ㅂㄹ", "ㄱ", "ㄴ", "ㅁ", "ㅈ", "ㅈㄷ", "ㄷ"]
+    for ln in range(1, 5):
+        for path in itertools.product(PW, repeat=ln):
+            if ln == 4 and tier == "quick" and R.random() < .6: continue
+            items.append((f"import({' '.join(path)})", " ".join(path) + f" ㅂㅎ{E(ln)}"))
+            if ln <= 2: items.append((f"import({' '.join(path)})(1)", f"ㄴ ({' '.join(path)} ㅂㅎ{E(ln)}) ㅎㄴ"))
     # numeric strings in every base, malformed
     for st in ["", "1", "-1", "1.5", "1e5", "z", "१२", " 1 ", "1_0", "0x1", "1.5.2", ".", "-", "1+2i", "i", "nan", "inf", "9" * 400]:
         for base in ["", "ㄱ", "ㄴ", "ㄷ", E(10), E(36), E(37), "ㄴㄱ"]:
